@@ -46,4 +46,35 @@ CommitScope == Commit1("conda") \cup Commit1("condu") \cup Commit2("conda") \cup
                \cup {<<"onceo", << <<h>> >> >> : h \in Heads}
                \cup {<<"conde", << <<x>>, <<B>> >> >> : x \in Commit1("condu")}
                \cup {<<"conj", << <<"conde", << <<A>>, <<B>> >> >>, x>> >> : x \in Commit1("conda")}
+
+(* Query pipeline (state::reified, reify, force_ans): whole queries over two query variables; the
+   answers differ widely in reification cost (atoms, lists, nested lists, finite domains) *)
+Q1 == <<"var", 1>>
+Q2 == <<"var", 2>>
+H3 == <<"var", 3>>
+N(n) == <<"num", n>>
+QAtoms == { <<"eq", Q1, N(1)>>, <<"eq", Q1, <<"list", <<N(1), N(2)>> >> >>, <<"eq", Q2, <<"list", <<Q1, <<"list", <<N(3)>> >> >> >> >>,
+            <<"eq", Q2, N(2)>>, <<"leaf", "a">>, <<"dom", Q1, <<"vec", <<1, 2>> >> >>, <<"dom", Q2, <<"itv", 1, 3>> >>,
+            <<"neq", Q1, Q2>>, <<"fail">> }
+QCl == {<<x>> : x \in QAtoms} \cup {<<x, y>> : x \in {<<"dom", Q1, <<"vec", <<1, 2>> >> >>, <<"leaf", "a">>}, y \in QAtoms}
+QueryOf(S) == {<<"query", <<1, 2>>, b>> : b \in S}
+QDfs == QueryOf({ << <<"dfs", << << <<"cond", <<c1, c2>> >> >> >> >> >> : c1 \in QCl, c2 \in QCl })
+        \cup QueryOf({ << <<"dfs", << << <<"cond", << <<x>>, <<y>>, <<z>> >> >> >> >> >> >> :
+                          x \in QAtoms, y \in {<<"eq", Q1, N(1)>>, <<"dom", Q2, <<"itv", 1, 3>> >>}, z \in QAtoms })
+QCl1 == {<<x>> : x \in QAtoms}
+QClS == {<<x>> : x \in { <<"eq", Q1, N(1)>>, <<"eq", Q1, <<"list", <<N(1), N(2)>> >> >>,
+                         <<"eq", Q2, <<"list", <<Q1, <<"list", <<N(3)>> >> >> >> >>, <<"dom", Q1, <<"vec", <<1, 2>> >> >>, <<"fail">> }}
+QDfsSmall == QueryOf({ << <<"dfs", << << <<"cond", <<c1, c2>> >> >> >> >> >> : c1 \in QClS, c2 \in QClS })
+             \cup QueryOf({ << <<"dfs", << << <<"cond", <<c1, c2>> >> >> >> >> >> :
+                               c1 \in {<< <<"dom", Q1, <<"vec", <<1, 2>> >> >>, <<"dom", Q2, <<"itv", 1, 3>> >> >>}, c2 \in QClS })
+QBfsSmall == QueryOf({ << <<"conde", <<c1, c2>> >> >> : c1 \in QClS, c2 \in QClS })
+             \cup QueryOf({ << <<"fresh", <<3>>, << <<"dom", H3, <<"itv", 1, 2>> >>, <<"conde", <<c1, c2>> >> >> >> >> :
+                          c1 \in QClS, c2 \in {<< <<"eq", H3, Q1>> >>} })
+QBfs == QueryOf({ << <<"conde", <<c1, c2>> >> >> : c1 \in QCl, c2 \in QCl })
+        \cup QueryOf({ << <<"conde", <<c1, c2>> >>, z >> : c1 \in QCl, c2 \in {<<x>> : x \in QAtoms},
+                          z \in {<<"neq", Q1, N(1)>>, <<"dom", Q1, <<"itv", 0, 1>> >>} })
+        (* a domain variable that is not part of the answer (labelled once by the second part of
+           enforce_constraints_fd) *)
+        \cup QueryOf({ << <<"fresh", <<3>>, << <<"dom", H3, <<"itv", 1, 2>> >>, <<"conde", <<c1, c2>> >> >> >> >> :
+                          c1 \in {<<x>> : x \in QAtoms}, c2 \in {<< <<"eq", H3, Q1>> >>, << <<"ltefd", Q1, H3>>, <<"dom", Q1, <<"itv", 0, 3>> >> >>} })
 =============================================================================
